@@ -167,7 +167,48 @@ NEUTRAL = """reset
 @0 ito 2
 @0 ito 2
 @0 update
+reset
+@0 ctor 1 2 0
+@0 enter
+@0 ito 1
+@0 save
+@0 to 2
+@0 load -1
+@0 update
+@0 pc 1 2
+@0 pc 2 0
+@0 to 0
+@0 succeed 1
+@0 load -1
+@0 update | 5.1.0:S
+@0 update
+@0 with 2 0 1
+@0 rt 0
+@0 update
+@0 iwith 1 0 2 | 1.1.0:W2.3
+@0 to 1
+@0 rt 255
+@0 save
+@0 update | 6.255.0:PC1.0,F1
+@0 react 2 | 10.1.0:S ; 7.255.0:T2
+@0 fail 2
+@0 update
+@0 load -1
+@0 attach 1
+@0 update | 5.2.0:T0
+@0 exit
+@0 re 2
+@0 load 0
+@0 load -1
+@0 update
+reset
+rnd %(seed)d1 70 0
+reset
+rnd %(seed)d2 70 3
 """
+# Operations and control actions of a feature that is not compiled in are skipped by the harness (they are out of contract there),
+# so one program serves every switch combination; what must happen is decided by the specification instantiated with the
+# build's own feature constants: enabling a feature the program does not use must not change what the used ones do.
 
 
 def extra_c19(tier, seed):
@@ -204,7 +245,7 @@ def extra_c19(tier, seed):
             if exe is None:
                 return idx, prof, None, blog
             raw = os.path.join(wd, "m%d.raw.ndjson" % idx)
-            vlib.run_harness(exe, NEUTRAL, raw, timeout=20)
+            vlib.run_harness(exe, NEUTRAL % {"seed": seed}, raw, timeout=20)
         finally:
             shutil.rmtree(bdir, ignore_errors=True)
         return idx, prof, raw, ""
